@@ -54,7 +54,10 @@ static const char* WKT[] = {
     "CIRCULARSTRING(0 0,5 5,10 0,5 -5,0 0)",
     // dense linework (filled in by dense_literals()): segments much shorter than the tolerances / distances of the boundary table,
     // the kind of operand snapping, densifying and noding produce (GEOSSnap_r then inserts many snap vertices per segment)
-    "POINT EMPTY", "POINT EMPTY", "POINT EMPTY"
+    "POINT EMPTY", "POINT EMPTY", "POINT EMPTY",
+    // garbage words of 900, 1100, 5000 and 70000 characters (filled in by dense_literals()): the reader fails and its error text
+    // quotes the word, so the message is longer than any fixed buffer of the C API
+    "POINT EMPTY", "POINT EMPTY", "POINT EMPTY", "POINT EMPTY"
 };
 static const int NWKT = sizeof(WKT) / sizeof(WKT[0]);
 static void dense_literals() {
@@ -64,12 +67,20 @@ static void dense_literals() {
     comb = "MULTILINESTRING("; for (int i = 0; i < 48; i++) { double x = 0.2 * i, y = 3 + 0.05 * (i % 5);
         snprintf(b, sizeof b, "%s(%.6f %.6f,%.6f %.6f)", i ? "," : "", x, y, x + 0.1, y + 0.07); comb += b; } comb += ")";
     zig = "LINESTRING("; for (int i = 0; i < 96; i++) { snprintf(b, sizeof b, "%s%.6f %.6f", i ? "," : "", 0.1 * i, 5 + 0.04 * (i % 3)); zig += b; } zig += ")";
-    WKT[NWKT - 3] = ring.c_str(); WKT[NWKT - 2] = comb.c_str(); WKT[NWKT - 1] = zig.c_str();
+    WKT[NWKT - 7] = ring.c_str(); WKT[NWKT - 6] = comb.c_str(); WKT[NWKT - 5] = zig.c_str();
+    static std::string longw[4]; static const size_t LEN[4] = {900, 1100, 5000, 70000};
+    for (int i = 0; i < 4; i++) { longw[i] = std::string(LEN[i], 'Q'); WKT[NWKT - 4 + i] = longw[i].c_str(); }
 }
 static const double DBL[] = {0.0, -0.0, 1.0, -1.0, 0.5, 2.0, 10.0, 100.0, 1e300, -1e300, NAN, INFINITY, -INFINITY, 5.0, 0.25, DBL_MAX};
 static const int INT[] = {0, 1, -1, 2, 3, 8, 16, 100, -100, INT_MAX, INT_MIN, 4};
 static const unsigned UNS[] = {0u, 1u, 2u, 3u, 10u, 1000u, 1000000u, 0x7fffffffu, 0xffffffffu, 4u};
-static const char* PAT[] = {"T*F**FFF*", "FF*FF****", "", "TTTTTTTTT", "*********", "0********", "T********X", "2FFF1FFF2", "abcdefghi", "T*F**FFF*T*F**FFF*"};
+static const char* PAT[] = {"T*F**FFF*", "FF*FF****", "", "TTTTTTTTT", "*********", "0********", "T********X", "2FFF1FFF2", "abcdefghi", "T*F**FFF*T*F**FFF*", "212101212", "FF2FF1212",
+                            "", "", "", ""};      // the last four: patterns of 900 .. 70000 characters (dense_literals())
+static const int NPAT = sizeof(PAT) / sizeof(PAT[0]);
+static void long_patterns() {
+    static std::string longp[4]; static const size_t LEN[4] = {900, 1100, 5000, 70000};
+    for (int i = 0; i < 4; i++) { longp[i] = std::string(LEN[i], 'T'); PAT[NPAT - 4 + i] = longp[i].c_str(); }
+}
 static const int TYP[] = {0, 1, 2, 3, 4, 5, 6, 7, 8, 9, 10, 11, 12, 99, -1};
 static const int SRID[] = {0, 4326, 1, -1, INT_MAX, 3857};
 static const unsigned SIZ[] = {0u, 1u, 2u, 3u, 4u, 10u, 100u};
@@ -85,6 +96,9 @@ static void on_error(const char* m, void*) {
     g_msg[i] = 0;
 }
 static void on_notice(const char*, void*) {}
+// the second context reports through the OLD handler style (printf-like, no user data): GEOSContext_setErrorHandler_r
+static void on_error_old(const char* fmt, ...) { char b[256]; va_list ap; va_start(ap, fmt); vsnprintf(b, sizeof b, fmt, ap); va_end(ap); on_error(b, nullptr); }
+static void on_notice_old(const char*, ...) {}
 
 struct Obj { void* p; char kind; bool alive; int owner; };
 union Arg { void* p; double d; int i; unsigned u; size_t z; };
@@ -97,6 +111,7 @@ static GEOSContextHandle_t H2, HC;
 // was neither cancelled nor delivered; i_cb / i_budget = a callback is registered and will still make that many requests.
 static bool i_pending = false, i_cb = false; static int i_budget = 0;
 static int i_cb_calls = 0, i_cb_requests = 0;       // during the current call
+static int n_longmsg = 0;                            // calls that failed with an error text quoting 900+ characters of caller data
 static int i_delivered = 0, i_after = 0;             // calls interrupted; polling-capable calls made after a delivery in the same program
 static void i_callback() { i_cb_calls++; if (i_budget > 0) { i_budget--; i_cb_requests++; GEOS_interruptRequest(); } }
 static const int CBK[] = {-1, 1, 0, 2, 1, -1};      // numeric class 9: -1 = unregister, otherwise the number of requests the callback makes
@@ -240,8 +255,8 @@ static int run_program(const std::string& line, int fd) {
     GEOSContext_setErrorMessageHandler_r(H, on_error, nullptr);
     GEOSContext_setNoticeMessageHandler_r(H, on_notice, nullptr);
     H2 = GEOS_init_r();                      // created before any interrupt call: GEOS_init_r() itself cancels pending requests
-    GEOSContext_setErrorMessageHandler_r(H2, on_error, nullptr);
-    GEOSContext_setNoticeMessageHandler_r(H2, on_notice, nullptr);
+    GEOSContext_setErrorHandler_r(H2, on_error_old);
+    GEOSContext_setNoticeHandler_r(H2, on_notice_old);
     HC = H; GEOS_interruptRegisterCallback(nullptr); GEOS_interruptCancel(); i_pending = i_cb = false; i_budget = 0;
     WW = GEOSWKBWriter_create_r(H); GEOSWKBWriter_setOutputDimension_r(H, WW, 4); GEOSWKBWriter_setIncludeSRID_r(H, WW, 1);
     signal(SIGALRM, on_alarm); signal(SIGPROF, on_alarm);
@@ -283,7 +298,7 @@ static int run_program(const std::string& line, int fd) {
               char b[80]; char sc = q < shape.size() ? shape[q] : '?';
               if (objh[q] >= 0) snprintf(b, sizeof b, "h%d", objh[q]);
               else if (sc == '0') snprintf(b, sizeof b, "%g", a[q].d); else if (sc == '1' || sc == '5' || sc == '6' || sc == '9') snprintf(b, sizeof b, "%d", a[q].i);
-              else if (sc == '3') snprintf(b, sizeof b, "'%.40s'", WKT[a[q].u]); else if (sc == '4') snprintf(b, sizeof b, "\"%s\"", (const char*)a[q].p);
+              else if (sc == '3') { size_t wl = strlen(WKT[a[q].u]); if (wl > 800 && WKT[a[q].u][0] == 'Q') snprintf(b, sizeof b, "'%.12s...'[LONG%zu]", WKT[a[q].u], wl); else snprintf(b, sizeof b, "'%.40s'", WKT[a[q].u]); } else if (sc == '4') { size_t pl = strlen((const char*)a[q].p); if (pl <= 40) snprintf(b, sizeof b, "\"%s\"", (const char*)a[q].p); else snprintf(b, sizeof b, "\"%.12s...\"[LONG%zu]", (const char*)a[q].p, pl); }
               else snprintf(b, sizeof b, "%u", a[q].u);
               dsc += (q ? "," : ""); dsc += b;
               if (objh[q] >= 0 && objh[q] < (int)pool.size() && pool[objh[q]].kind == 'S' && pool[objh[q]].p) {
@@ -408,6 +423,7 @@ static int run_program(const std::string& line, int fd) {
         if (is_err >= 0 && (is_err == 1) != called)
             say(fd, "V %d %s %s msg=%s\n", (int)k, cur_desc, is_err ? "error-value-without-error-message" : "error-message-without-error-value", g_msg);
         if (called) nerr++;
+        if (is_err == 1 && strstr(cur_desc, "[LONG")) n_longmsg++;
         if (rt == 'p' && !r.p) nnull++;
         // ---- strings are freed, values of the right class stay in range
         if (res == 'v' && rt == 'p' && r.p && name != "GEOSSTRtree_nearest_r") GEOSFree_r(H, r.p);
@@ -453,12 +469,12 @@ static int run_program(const std::string& line, int fd) {
     GEOSWKBWriter_destroy_r(H, WW);
     GEOS_finish_r(H2);
     GEOS_finish_r(H);
-    say(fd, "E calls=%d errs=%d nulls=%d skipped=%d maxms=%.0f slow=%s intr=%d after=%d\n", (int)calls.size(), nerr, nnull, nskip, maxms, slow.c_str(), i_delivered, i_after);
+    say(fd, "E calls=%d errs=%d nulls=%d skipped=%d maxms=%.0f slow=%s intr=%d after=%d longmsg=%d\n", (int)calls.size(), nerr, nnull, nskip, maxms, slow.c_str(), i_delivered, i_after, n_longmsg);
     return 0;
 }
 
 int main() {
-    dense_literals();
+    dense_literals(); long_patterns();
     std::string line;
     int total_s = getenv("C12_PROGRAM_TIMEOUT") ? atoi(getenv("C12_PROGRAM_TIMEOUT")) : 400;
     while (std::getline(std::cin, line)) {
